@@ -321,7 +321,7 @@ def generate(ctx, shard=0, nshards=1):
         # Angle helpers of the model against the real Angle class
         vals = [0.0, -0.0, 1e-20, -1e-20, 359.9999999, -359.9999999, 360.0, -360.0, 720.5, -725.25, 1234.5678,
                 180.0, -180.0, 90.0, 483.1, 1e6 + 0.5, -1e6 - 0.25, 59.99999, 60.0, 3600.0, 3599.9999, 1296000.0,
-                1295999.99, -61.5, 2306.2181, 12345.678, 2e6, 4.2e9] + hot
+                1295999.99, 1295999.9999999998, -1295999.9999999998, 1295999.9999999995, 2591999.9999999995, -61.5, 2306.2181, 12345.678, 2e6, 4.2e9] + hot
         for x in vals + [rng.uniform(-2000, 2000) for _ in range(300)] + [rng.uniform(-2e6, 2e6) for _ in range(300)]:
             tie(ctx, 'a_reduce', [x], run_impl(lambda: Angle.reduce_deg(x)), 'angle_helpers', raw=True)
             tie(ctx, 'a_of_sec', [x], run_impl(lambda: Angle(0, 0, x)()), 'angle_helpers', raw=True)
